@@ -244,7 +244,7 @@ def _expected_level(evname, votes, n, direct, fuel):
     drop = sum(k for p, k in direct.items() if p not in base)
     tier_overhang = any(direct.get(p, 0) > base[p] for p in tier if not isinstance(p, tuple))
     least = None
-    for e in range(0, fuel + drop + 2):
+    for e in range(0, fuel + 1):
         h = n + e - drop
         if h < 0:
             continue
@@ -298,7 +298,8 @@ def _adj_clauses(case, adj, votes, direct):
     else:
         least = info['least']
         if least is None:
-            out.append(('level_no_adequate_enlargement_in_bound', f'adjustment {adj}'))
+            # no adequate enlargement up to the bound: in particular the reported one is not adequate
+            out.append(('level_floor_unmet', f'adjustment {adj}, no adequate enlargement up to {case["fuel"]}; floors {info["floors"]}'))
         elif adj < least:
             # the proportional distribution of n + adj - drop seats does not meet the floors
             if adj == 0 and info['drop'] > 0 and not info['tier_overhang']:
@@ -374,11 +375,11 @@ def _cty_adj_clauses(case, obs):
         return [('unexpected_error:' + str(obs.get('err')), str(obs))], None
     if not isinstance(obs, int) or obs < 0:
         return [('adj_negative', str(obs))], None
-    if exp['least'] is None:
-        return [('level_no_adequate_enlargement_in_bound', str(obs))], None
-    if obs < exp['least']:
+    if exp['least'] is None or obs < exp['least']:
+        # (no adequate enlargement up to the bound: in particular the reported one is not adequate)
         cl = 'level_cty_floor_ignores_direct_seats_without_local_share' if exp['ignored'] else 'level_floor_unmet'
-        out.append((cl, f'adjustment {obs} < least adequate enlargement {exp["least"]}; floors {exp["floors"]}'))
+        least = exp['least'] if exp['least'] is not None else f'> {case["fuel"]}'
+        out.append((cl, f'adjustment {obs} < least adequate enlargement {least}; floors {exp["floors"]}'))
     elif obs > exp['least']:
         out.append(('level_not_least', f'adjustment {obs} > least adequate enlargement {exp["least"]}; floors {exp["floors"]}'))
     return out, exp
